@@ -51,7 +51,7 @@ func (g *simplified) NumNodes() int {
 }
 
 func (g *simplified) Out(n int) []int {
-	return g.edges[g.indexes[n]:g.indexes[n+1]]
+	return g.edges[g.indexes[n]:g.indexes[n+1]:g.indexes[n+1]]
 }
 
 func (g *simplified) OutWeight(n, e int) float64 {
